@@ -16,6 +16,10 @@ def route(case):
 # Every finding of this property is fixed in /repo (d6fc4b1, 488e192, fe05ccf, bbcb995): the model has one variant,
 # what /repo HEAD does; a regression to any of the old defects is a VIOLATION.
 VARIANTS = ["repaired"]
+# Which Identifiers the originated packets carry is a choice the property leaves free: the model driver reads them
+# (start value id0 and the Identifier of every scr/str/scj) from the implementation's line, runs with that policy and
+# checks it is admissible (INADMISSIBLE:<why> otherwise).
+MODEL_NEEDS_IMPL = True
 RULE = ("One case = one whole event history applied to a fresh FSM (kinds fsm / ncp: mock option handler whose answer "
         "class good/nak/rej/both/malformed is chosen per Configure-Request, protocol LCP / IPCP; kinds lcp/ipcp/ipv6cp: "
         "the real handlers with payloads of known class), restart timer fired only by the explicit T event. Exhaustive part: ~30 canonical "
@@ -233,7 +237,7 @@ def steps(line):
     the trailing ov=/alt=/term= tokens of a conc case are ignored here (see flags())"""
     out = []
     for tok in line.split():
-        if tok.startswith(("ov=", "alt=", "term=", "lock=", "HANG")):
+        if tok.startswith(("ov=", "alt=", "term=", "lock=", "HANG", "id0=")):
             continue
         p = tok.split(":")
         if len(p) != 3:
@@ -355,6 +359,9 @@ def classify(case, impl, model):
     if a[7] != b[7]:
         return "P", txt + (" (the option handler was called differently: option state, hence the content of later "
                            "Configure-Requests, departs from what RFC 1661 prescribes)")
+    if a[3] != b[3]:
+        return "P", txt + (" (lastReqID is not the Identifier of the last Configure-Request sent: replies are matched "
+                           "against the wrong Identifier - stale-identifier clause)")
     if a[1] != b[1] or a[2] != b[2]:
         return "P", txt + " (restart counter / restart timer differ: bounded-retransmission clause)"
     return "G", txt + " (internal variables only)"
